@@ -539,6 +539,9 @@ pub struct EvalSummary {
     pub errors: usize,
     pub c15_nontrivial: bool,
     pub case_hash: u64,
+    /// a job failed or the evaluation was aborted: what else got started then legitimately depends on
+    /// timing (and on the engine's internal hash order), so the two runs may part ways here
+    pub faulty: bool,
 }
 
 pub struct ChainOutcome {
@@ -1277,6 +1280,7 @@ pub fn eval_step(p: &mut Project, cfg: &ChainCfg, seed: u64, step: usize, edits:
             errors: rep.errors.len(),
             c15_nontrivial: c15n,
             case_hash,
+            faulty: rep.interrupted(),
         });
 
         if !all_viols.is_empty() {
@@ -1350,6 +1354,12 @@ pub fn run_metamorphic(seed: u64, family: Family, maxn: usize, acc: &mut Acc, ve
         let (s1, s2) = (&o1.summaries[i], &o2.summaries[i]);
         if s2.c15_nontrivial {
             acc.nontrivial("C15", s2.case_hash);
+        }
+        if (s1.started != s2.started || s1.dispositions != s2.dispositions) && (s1.faulty || s2.faulty) {
+            // with failures / an abort the set of jobs that were started before the fault arrived depends on
+            // timing; from here on the two chains have legitimately different histories - stop comparing
+            acc.count("c15_pairs_diverged_under_faults", 1);
+            break;
         }
         if s1.started != s2.started || s1.dispositions != s2.dispositions {
             let extra: Vec<&String> = s2.started.difference(&s1.started).collect();
